@@ -117,10 +117,23 @@ public:
         if (!(x == y)) {
           dom -= x;
         }
+        // x = y / k rounds towards zero, so y is not exactly x * k
+        // but x * k + r where |r| <= |k| - 1.
+        number_t max_rem = (k < 0 ? -k : k) - 1;
+        if (max_rem > 0) {
+          auto &vfac = const_cast<varname_t *>(&(y.name()))->get_var_factory();
+          variable_t rem(vfac.get(), y.get_type());
+          dom += linear_constraint_t(linear_expression_t(rem) - max_rem,
+                                     linear_constraint_t::INEQUALITY);
+          dom += linear_constraint_t(linear_expression_t(rem) * number_t(-1) - max_rem,
+                                     linear_constraint_t::INEQUALITY);
+          dom.apply(OP_ADDITION, y, y, rem);
+          dom -= rem;
+        }
       } else {
         dom -= x;
       }
-      break;    
+      break;
     default:
       //case OP_UDIV:
       //case OP_SREM:
